@@ -11,7 +11,9 @@ package kxps
 import (
 	"fmt"
 	"math"
+	"sort"
 	"strings"
+	"sync"
 	"testing"
 	"time"
 
@@ -270,11 +272,34 @@ func TestVerif_C20_Windows(t *testing.T) {
 		sig, detail string
 		replay      interface{}
 	}
-	outs := make([][]out, n)
+	// per signature: the witness of the lowest history index, and a count (deterministic, bounded memory)
+	type entry struct {
+		idx, n int
+		v      out
+	}
+	var cmu sync.Mutex
+	coll := map[string]*entry{}
+	flush := func(idx int, list []out) {
+		cmu.Lock()
+		defer cmu.Unlock()
+		for _, x := range list {
+			e := coll[x.sig]
+			if e == nil {
+				coll[x.sig] = &entry{idx, 1, x}
+				continue
+			}
+			e.n++
+			if idx < e.idx {
+				e.idx, e.v = idx, x
+			}
+		}
+	}
 	mon.Parallel(n, func(w, idx int) {
 		if only != -1 && idx != only {
 			return
 		}
+		var list []out
+		defer func() { flush(idx, list) }()
 		r := m.Rand("history", idx)
 		steps, mode, wrap, nsJitter := verifHistory(r)
 		mt := verifNewMeter(r.Bool())
@@ -285,7 +310,7 @@ func TestVerif_C20_Windows(t *testing.T) {
 		add := func(sig, format string, a ...interface{}) {
 			rep := map[string]interface{}{"case": idx, "meter": mt.name(), "mode": mode, "ns_jitter": nsJitter, "base_unix": base.Unix(), "started_before_step": startAt,
 				"history_t_ns_counter_sample_avg": append([]string(nil), log...)}
-			outs[idx] = append(outs[idx], out{sig, fmt.Sprintf(format, a...) + fmt.Sprintf(" [%s, %s, step %d] history(t_ns,counter,doSample,avg)=%s", mt.name(), mode, len(log)-1, strings.Join(verifTail(log, 12), " ")), rep})
+			list = append(list, out{sig, fmt.Sprintf(format, a...) + fmt.Sprintf(" [%s, %s, step %d] history(t_ns,counter,doSample,avg)=%s", mt.name(), mode, len(log)-1, strings.Join(verifTail(log, 12), " ")), rep})
 		}
 		// a fresh meter refuses every reading
 		for g := 0; g < 4; g++ {
@@ -505,9 +530,19 @@ func TestVerif_C20_Windows(t *testing.T) {
 			m.Sample(map[string]interface{}{"meter": mt.name(), "history_t_ns_counter_sample_avg": log, "final_rates": []float64{mt.public(0), mt.public(1), mt.public(2)}})
 		}
 	})
-	for i := range outs {
-		for _, o := range outs[i] {
-			m.Violation(o.sig, o.detail, o.replay)
+	var es []*entry
+	for _, e := range coll {
+		es = append(es, e)
+	}
+	sort.Slice(es, func(i, j int) bool {
+		if es[i].idx != es[j].idx {
+			return es[i].idx < es[j].idx
+		}
+		return es[i].v.sig < es[j].v.sig
+	})
+	for _, e := range es {
+		for k := 0; k < e.n; k++ {
+			m.Violation(e.v.sig, e.v.detail, e.v.replay)
 		}
 	}
 }
